@@ -6,7 +6,7 @@ from typing import TYPE_CHECKING, cast
 
 import sympy
 from sympy.printing import jscode, julia_code, rust_code
-from sympy.printing.pycode import pycode
+from sympy.printing.pycode import PythonCodePrinter
 
 from mxlpy.meta.source_tools import fn_to_sympy
 from mxlpy.types import Derived
@@ -23,6 +23,19 @@ __all__ = [
     "sympy_to_inline_rust",
     "sympy_to_python_fn",
 ]
+
+
+class _PythonPrinter(PythonCodePrinter):
+    """Python printer that keeps `%` from capturing the factors in front of it."""
+
+    def _print_Mod(self, expr: sympy.Mod) -> str:
+        # sympy prints -x * Mod(y, z) as "-x*y % z", which Python reads as (-x*y) % z
+        return f"({super()._print_Mod(expr)})"
+
+
+def _pycode(expr: sympy.Expr, **settings: bool) -> str:
+    """Convert a sympy expression to Python code."""
+    return cast(str, _PythonPrinter(settings).doprint(expr))
 
 
 def list_of_symbols(args: Iterable[str]) -> list[sympy.Symbol | sympy.Expr]:
@@ -52,7 +65,7 @@ def sympy_to_inline_py(expr: sympy.Expr) -> str:
     'x**2 + 2*x + 1'
 
     """
-    return cast(str, pycode(expr, fully_qualified_modules=True, full_prec=False))
+    return _pycode(expr, fully_qualified_modules=True, full_prec=False)
 
 
 def sympy_to_inline_js(expr: sympy.Expr) -> str:
@@ -105,7 +118,7 @@ def sympy_to_python_fn(
     fn_args = ", ".join(f"{i}: float" for i in args)
 
     return f"""def {fn_name}({fn_args}) -> float:
-    return {pycode(expr, fully_qualified_modules=True, full_prec=False)}
+    return {_pycode(expr, fully_qualified_modules=True, full_prec=False)}
     """.replace("math.factorial", "scipy.special.factorial")
 
 
